@@ -62,6 +62,7 @@ func c04Scripts(tier string) []uciParams {
 		{"go wtime 1000 btime 1000 movestogo 10", "await"},
 		{"go depth 1", "await", "go depth 1", "await"},
 		{"go depth 1", "await", "go infinite", "!stop", "await"},
+		{"go depth 1 movetime 5", "await", "go infinite", "!stop", "await"}, // the movetime timer of an answered go outlives it
 	}
 	var out []uciParams
 	for ei, e := range engs {
@@ -130,10 +131,17 @@ func init() {
 				if max > 320 {
 					max = 320
 				}
+				timed := strings.Contains(strings.Join(p.Script, " "), "time")
 				for k := 0; k <= max; k += stride {
 					q := p
 					q.Release = k
 					out = append(out, uciScenario(q))
+					if timed && k > 0 { // timers fire half-way to / three quarters of the way to the stop
+						q.Timer = k / 2
+						out = append(out, uciScenario(q))
+						q.Timer = 3 * k / 4
+						out = append(out, uciScenario(q))
+					}
 				}
 			}
 			return out
